@@ -2,6 +2,7 @@ import Vore.Driver.Print
 import Vore.Driver.OpsC04
 import Vore.Driver.OpsC05
 import Vore.Driver.OpsC20
+import Vore.Driver.OpsLex
 /-!
 # Vore.Driver.Ops — registry of the per-property driver operations
 
@@ -11,6 +12,6 @@ Each property that needs its own line-protocol operations defines, in
 -/
 namespace Vore.Driver
 
-def extraOps : List (String → List String → Option String) := [handleC04, handleC05, handleC20]
+def extraOps : List (String → List String → Option String) := [handleC04, handleC05, handleC20, handleLex]
 
 end Vore.Driver
